@@ -1,11 +1,11 @@
 package props
 
 import (
-	"strings"
 	"fmt"
 	"go/ast"
 	"go/types"
 	"regexp"
+	"strings"
 
 	"verifcheck/an"
 )
@@ -64,6 +64,22 @@ func c11(c *an.Ctx) {
 				want, _ := an.ParseFormula("KIND & CONTAINS & !DELETED & (!TRUNC | T_LT_TRUNCAT)", atoms)
 				if eq, _ := an.Equivalent(got, want, atoms); eq {
 					okTrunc = true
+				}
+			}
+			// the same decision written as a chain of early `continue` tests: the condition under which the
+			// return is reached from the start of the loop body
+			if !okTrunc && ret.Len() == 1 {
+				if start := f.LoopBodyEntry(ret.List[0]); start >= 0 {
+					atoms := map[string]bool{}
+					f.AtomRename = an.Roles(`^`+g+`\.Contains\(p0\)$`, "CONTAINS", `^`+g+`\.Deleted\(\)$`, "DELETED", `^p1==`+g+`\.EngineType$`, "KIND", `^`+g+`\.Truncated\(\)$`, "TRUNC", `^p0<`+g+`\.TruncatedAt$`, "T_LT_TRUNCAT")
+					got, err := f.PathFormula(start, ret.List[0].V, atoms)
+					f.AtomRename = nil
+					if err == nil {
+						want, _ := an.ParseFormula("KIND & CONTAINS & !DELETED & (!TRUNC | T_LT_TRUNCAT)", atoms)
+						if eq, _ := an.Equivalent(got, want, atoms); eq {
+							okTrunc = true
+						}
+					}
 				}
 			}
 			r.AddSites(1)
@@ -368,7 +384,7 @@ func c11(c *an.Ctx) {
 					app := f.Find(an.MStore("buf = append(buf, …)", buf, isAppend)).Filter("inside the tag-group loop", func(s an.Site) bool {
 						return f.LoopBodyEntry(s) >= 0
 					})
-					reset := f.Find(an.MStore("buf = <not an append of itself>", buf, func(f *an.Fn, e ast.Expr) bool { return !isAppend(f, e) })).Filter("inside the tag-group loop", func(s an.Site) bool {
+					reset := f.Find(an.MStore("buf = <not an append of itself>", buf, func(f *an.Fn, e ast.Expr) bool { return !isAppend(f, e) && !refIs(f, e, buf) })).Filter("inside the tag-group loop", func(s an.Site) bool {
 						return f.LoopBodyEntry(s) == start
 					})
 					r.AddSites(app.Len() + reset.Len() + 1)
